@@ -30,6 +30,13 @@ def jobs(tier, seed):
 
 def check_path(eng, path, p, L, res, defined, msmset):
     """obligations on one path of RTCMMessage(payload=p) with free identity"""
+    try:
+        return _check_path(eng, path, p, L, res, defined, msmset)
+    except sym.EngineSignal as e:      # a property of the message used an operation the proxies cannot model
+        res['inconclusive'].append(f"post-construction observation: {type(e).__name__}: {str(e)[:80]}")
+
+
+def _check_path(eng, path, p, L, res, defined, msmset):
     nb = 8 * L
     P = p.term()
     num = eng.unique(z3.ZeroExt(1, msgdrv.fterm(P, nb, 0, 12)))
@@ -136,7 +143,8 @@ def run_job(spec):
             if not structs.wellformed(ident):
                 continue
             k = structs.kind_of(ident)
-            sts = [dict(nsat=1, nsig=1, cellmask='ones'), dict(nsat=0, nsig=0, cellmask='zero'), dict(nsat=0, nsig=1, cellmask='zero')] if k == 'msm' else \
+            sts = [dict(nsat=1, nsig=1, cellmask='ones', maskmode='value', seed=2), dict(nsat=0, nsig=0, cellmask='zero', maskmode='value'),
+                   dict(nsat=0, nsig=1, cellmask='zero', maskmode='value', seed=3)] if k == 'msm' else \
                 [dict(harm=(0, 1, 1))] if k == 'harm' else [dict(flags=5)] if k == 'flags' else [dict(mode=('uniform', 1)), dict(mode=('uniform', 0))]
             for st in sts:
                 d = msgdrv.Directed(ident, structs.chooser(st), spare=1)
